@@ -276,6 +276,8 @@ def oracle(seed, tier):
         ref = RefCoord()
         was_done = False
         res.evaluations += 1
+        if res.enough():
+            break
         for j, (op, arg) in enumerate(seq):
             rig.apply(op, arg)
             ref.apply(op, arg)
@@ -311,6 +313,8 @@ def oracle(seed, tier):
         mode = ['uniform', 'sticky', 'pct'][i % 3]
         lin, final_state, final_result, fail, sch = threaded_case(rng.randrange(1 << 30), plans, mode)
         res.evaluations += 1
+        if res.enough():
+            break
         if fail is not None:
             res.violation('coordinator-ops-hang', {'plans': plans, 'mode': mode}, repr(fail))
             continue
